@@ -104,6 +104,43 @@ def _const_only_locals(body):
     return out
 
 
+def _is_drop_flag(body, l):
+    """a compiler-made drop flag: a bool that is only ever read by `if flag { drop(x) }` switches"""
+    from .thread import _cond_drop
+    if body.locals[l]["ty"] != "bool":
+        return False
+    reads = 0
+    for b, bl in enumerate(body.blocks):
+        if bl.get("dead"):
+            continue
+        for st in bl["stmts"]:
+            if st.get("s") == "assign" and _mentions_local_rv(st["rv"], l):
+                return False
+        t = bl["term"]
+        if t["t"] == "switch":
+            op = t["discr"]
+            if op["o"] in ("copy", "move") and op["place"]["l"] == l:
+                if bl["cleanup"]:
+                    reads += 1
+                    continue
+                if _cond_drop(body.blocks, b, t) is None:
+                    return False
+                reads += 1
+        elif _mentions_local_rv(t, l) and not (t["t"] == "call" and not t["dest"]["proj"] and t["dest"]["l"] == l and not _mentions_local_rv(t.get("args", []), l)):
+            return False
+    return reads > 0
+
+
+def _mentions_local_rv(x, l):
+    if isinstance(x, dict):
+        if "l" in x and "proj" in x:
+            return x["l"] == l or any(pe.get("p") == "index" and pe.get("local") == l for pe in x["proj"])
+        return any(_mentions_local_rv(v, l) for v in x.values())
+    if isinstance(x, list):
+        return any(_mentions_local_rv(v, l) for v in x)
+    return False
+
+
 def state_locals(body, loop_blocks):
     """Loop-carried control state: locals whose every definition is a constant (enum unit variant / bool), directly or by
     copying a temporary that itself only holds constants (`state = if c { A } else { B }`), with a definition inside the
@@ -131,8 +168,13 @@ def state_locals(body, loop_blocks):
             break
         if not ok or not vals:
             continue
-        inside = [v for b, v in vals if b in loop_blocks]
-        outside = [v for b, v in vals if b not in loop_blocks]
+        # a block entered from the loop only (the `break` side of a branch) still belongs to the iteration that leaves
+        def exit_block(b):
+            ps = [p_ for p_ in body.preds()[b] if not body.is_cleanup(p_)]
+            return bool(ps) and all(p_ in loop_blocks for p_ in ps)
+        xb = (lambda b: exit_block(b)) if not _is_drop_flag(body, local) else (lambda b: False)
+        inside = [v for b, v in vals if b in loop_blocks or xb(b)]
+        outside = [v for b, v in vals if not (b in loop_blocks or xb(b))]
         if inside and len(outside) >= 1:
             out[local] = {"init": outside, "values": set(v for _, v in vals)}
     # temporaries that only feed a state local are not state themselves
@@ -166,9 +208,16 @@ def switch_local(body, bb):
     if op["o"] in ("copy", "move") and [p_.get("p") for p_ in op["place"]["proj"]] == ["downcast", "field"]:
         pl = op["place"]
         return (pl["l"], ("payload", pl["proj"][0].get("name"), pl["proj"][1]["i"]), (), False)
-    if op["o"] not in ("copy", "move") or op["place"]["proj"]:
+    if op["o"] in ("copy", "move") and len(op["place"]["proj"]) == 1 and op["place"]["proj"][0].get("p") == "field":
+        # `match (a, b) { (true, _) => .. }` / `match scan(s) { .. }` with scan returning the pair: the tested field of a
+        # tuple that was built from plain locals is that local
+        l = _tuple_field_source(body, op["place"]["l"], op["place"]["proj"][0]["i"])
+        if l is None:
+            return None
+    elif op["o"] not in ("copy", "move") or op["place"]["proj"]:
         return None
-    l = op["place"]["l"]
+    else:
+        l = op["place"]["l"]
     neg = False
     for _ in range(4):
         ds = [d for d in body.defs().get(l, []) if not body.is_cleanup(d[0])]
@@ -194,6 +243,24 @@ def switch_local(body, bb):
             continue
         break
     return (l, False, (), neg)
+
+
+def _tuple_field_source(body, l, i):
+    """the plain local that field i of tuple local l was built from (through whole-local moves of the tuple), or None"""
+    for _ in range(6):
+        ds = [d for d in body.defs().get(l, []) if not body.is_cleanup(d[0])]
+        if len(ds) != 1 or ds[0][2] != "rv":
+            return None
+        rv = ds[0][3]
+        if rv["r"] == "use" and rv["op"]["o"] in ("copy", "move") and not rv["op"]["place"]["proj"]:
+            l = rv["op"]["place"]["l"]
+            continue
+        if rv["r"] == "aggregate" and rv.get("ak") == "tuple" and i < len(rv["ops"]):
+            o = rv["ops"][i]
+            if o["o"] in ("copy", "move") and not o["place"]["proj"]:
+                return o["place"]["l"]
+        return None
+    return None
 
 
 def _reads_before_writes(body, path, test_bb, state):
